@@ -19,6 +19,22 @@ type VerifDNS struct {
 	f  *Interface
 }
 
+func verifCertState(selfCert cert.Certificate, selfAddrs []netip.Addr) *CertState {
+	tbl := new(bart.Lite)
+	for _, a := range selfAddrs {
+		tbl.Insert(netip.PrefixFrom(a, a.BitLen()))
+	}
+	cs := &CertState{myVpnAddrs: selfAddrs, myVpnAddrsTable: tbl}
+	if selfCert.Version() == cert.Version1 {
+		cs.v1Cert = selfCert
+		cs.initiatingVersion = cert.Version1
+	} else {
+		cs.v2Cert = selfCert
+		cs.initiatingVersion = cert.Version2
+	}
+	return cs
+}
+
 // VerifNewDNS builds a dnsServer over a fresh hostmap. selfCert / selfAddrs may be nil / empty (no PKI).
 func VerifNewDNS(selfCert cert.Certificate, selfAddrs []netip.Addr) *VerifDNS {
 	l := slog.New(slog.DiscardHandler)
@@ -30,23 +46,29 @@ func VerifNewDNS(selfCert cert.Certificate, selfAddrs []netip.Addr) *VerifDNS {
 		hostMap: hm,
 	}
 	if selfCert != nil {
-		tbl := new(bart.Lite)
-		for _, a := range selfAddrs {
-			tbl.Insert(netip.PrefixFrom(a, a.BitLen()))
-		}
-		cs := &CertState{myVpnAddrs: selfAddrs, myVpnAddrsTable: tbl}
-		if selfCert.Version() == cert.Version1 {
-			cs.v1Cert = selfCert
-			cs.initiatingVersion = cert.Version1
-		} else {
-			cs.v2Cert = selfCert
-			cs.initiatingVersion = cert.Version2
-		}
 		pki := &PKI{}
-		pki.cs.Store(cs)
+		pki.cs.Store(verifCertState(selfCert, selfAddrs))
 		ds.pki = pki
 	}
 	return &VerifDNS{ds: ds, hm: hm, f: &Interface{dnsServer: ds}}
+}
+
+// SetSelf replaces the node's own certificate state (what a certificate reload stores into the PKI).
+func (v *VerifDNS) SetSelf(selfCert cert.Certificate, selfAddrs []netip.Addr) {
+	if v.ds.pki == nil {
+		v.ds.pki = &PKI{}
+	}
+	v.ds.pki.cs.Store(verifCertState(selfCert, selfAddrs))
+}
+
+// DeleteHostInfo runs HostMap.DeleteHostInfo for the hostinfo registered under the local index (tunnel teardown).
+func (v *VerifDNS) DeleteHostInfo(localIndex uint32) bool {
+	hi := v.hm.QueryIndex(localIndex)
+	if hi == nil {
+		return false
+	}
+	v.hm.DeleteHostInfo(hi)
+	return true
 }
 
 func (v *VerifDNS) SetEnabled(b bool) { v.ds.enabled.Store(b) }
